@@ -1,9 +1,15 @@
-(* Legacy body decoders of Pose.read: v0.1 (pose_body.py:149-189) and v0.0 (numpy/pose_body.py:54-108),
+(* Legacy body decoders of Pose.read: v0.1 (pose_body.py:149-205) and v0.0 (numpy/pose_body.py:55-138),
    as programs over the reader interface of base/Prog.v, plugged into PoseRead.read_body_with.
-   The model is of the source WITH the two proposed repairs
-     F4i  read_v0_1 asks reader.bytes_remaining() (bytes up to the end of the data source) instead of
-          bytes_left() (which on a BytesIOReader counts only the bytes fetched so far);
-     F4iii  read_v0_0 masks a point when its confidence == 0 (the constructor's rule), not when not (> 0).
+   Transcribed from the source with the repairs
+     F4i   read_v0_1 asks reader.bytes_remaining() (bytes up to the end of the data source) instead of
+           bytes_left() (which on a BytesIOReader counts only the bytes fetched so far);
+     F4iii read_v0_0 masks a point when its confidence == 0 (the constructor's rule), not when not (> 0);
+     F4v   a v0.0 file without frames is the empty pose;
+     F4ii  both decoders take start_frame / end_frame / start_time / end_time: a frame and a time bound for the same
+           end raise ValueError before anything is read, a time bound becomes a frame bound by the expressions of
+           read_v0_2 (floor / ceil of t / 1000 * fps), read_v0_1 hands the bounds to read_v0_1_frames, read_v0_0
+           (frames have no fixed size) refuses a start at or beyond the declared frame count, decodes every frame
+           and keeps the slice.
    Definitions only. *)
 From Coq Require Import ZArith NArith List Bool SpecFloat.
 Require Import ListN Result Bytes Utf8 Utf8S F32 Prog Codec PoseRead.
@@ -40,8 +46,17 @@ Definition py_int_truediv (a b : Z) : result Z :=
    observed, and written back by the v0.2 writer, as that number) *)
 Definition f32_of_u16 (n : N) : N := b32_of_sf (binary_normalize 24 128 (Z.of_N n) 0 false).
 
-(* ---------- v0.1: pose_body.py:149-189 ---------- *)
-Definition read_v0_1 (h : header) (sf ef : option Z) : prog body :=
+(* ---------- window arguments (both decoders) ---------- *)
+(* if <x>_time is not None: <x>_frame = math.floor / math.ceil (<x>_time / 1000 * fps): the expression of read_v0_2
+   (Codec.time_to_frame); fps is the Python int of the 16-bit field here, so the product is the binary64 product
+   with float(fps), which is that integer exactly (f32_of_u16 is exact on 16-bit values) *)
+Definition bound_of (ceil : bool) (fps : N) (f t : option Z) : result (option Z) :=
+  match t with Some ms => rmap Some (time_to_frame ceil ms fps) | None => Ok f end.
+
+(* ---------- v0.1: pose_body.py:149-205 ---------- *)
+Definition read_v0_1 (h : header) (sf st ef et : option Z) : prog body :=
+  match sf, st with Some _, Some _ => Fail Value | _, _ =>          (* :183-184 both start_time and start_frame *)
+  match ef, et with Some _, Some _ => Fail Value | _, _ =>          (* :185-186 both end_time and end_frame *)
   dop ff <- rd_u16x2;                                  (* fps, _frames = unpack(double_ushort) *)
   dop P <- rd_u16;                                     (* _people *)
   let T := total_points h in
@@ -49,11 +64,15 @@ Definition read_v0_1 (h : header) (sf ef : option Z) : prog body :=
   BytesLeft (fun left =>                               (* reader.bytes_remaining()  [F4i] *)
   (* _frames = int(left / (_people * _points * (_dims + 1) * 4)): the 16-bit field is ignored *)
   dop F <- plift (py_int_truediv left (Z.of_N P * Z.of_N T * (D + 1) * 4));
-  dop dat <- read_frames F (Z.of_N (P * T) * D) sf ef;
-  dop cnf <- read_frames F (Z.of_N (P * T)) sf ef;
-  plift (mk_body (f32_of_u16 (fst ff)) (Z.to_N (fst dat)) P T D (snd dat) (snd cnf))).
+  let fps := f32_of_u16 (fst ff) in
+  dop s <- plift (bound_of false fps sf st);           (* :197-198 *)
+  dop e <- plift (bound_of true fps ef et);            (* :199-200 *)
+  dop dat <- read_frames F (Z.of_N (P * T) * D) s e;
+  dop cnf <- read_frames F (Z.of_N (P * T)) s e;
+  plift (mk_body fps (Z.to_N (fst dat)) P T D (snd dat) (snd cnf)))
+  end end.
 
-(* ---------- v0.0: numpy/pose_body.py:54-108 ---------- *)
+(* ---------- v0.0: numpy/pose_body.py:55-138 ---------- *)
 Fixpoint pmapM {A B} (f : A -> prog B) (l : list A) : prog (list B) :=
   match l with
   | [] => Ret []
@@ -99,29 +118,44 @@ Definition rd_frame00 (comps : list component) (T : N) (D : Z) : prog frame00 :=
            dop rest <- prep k (rd_person00 comps false);
            Ret p0
   end.
-Definition read_v0_0 (h : header) : prog body :=
+(* a list slice l[lo : hi] with non-negative bounds (hi = None: to the end): Python clips both bounds to len(l) *)
+Definition slice_list {X} (lo : Z) (hi : option Z) (l : list X) : list X :=
+  let d := dropN (Z.to_N lo) l in
+  match hi with None => d | Some z => takeN (Z.to_N z - Z.to_N lo) d end.
+Definition read_v0_0 (h : header) (sf st ef et : option Z) : prog body :=
+  match sf, st with Some _, Some _ => Fail Value | _, _ =>          (* :83-84 both start_time and start_frame *)
+  match ef, et with Some _, Some _ => Fail Value | _, _ =>          (* :85-86 both end_time and end_frame *)
   dop ff <- rd_u16x2;                                  (* fps, _frames *)
+  let fps := f32_of_u16 (fst ff) in
+  dop s <- plift (bound_of false fps sf st);           (* :90-91 *)
+  dop e <- plift (bound_of true fps ef et);            (* :92-93 *)
+  (* :94-95 start_frame is not None and start_frame > 0 and start_frame >= _frames (the 16-bit field): ValueError *)
+  if (match s with Some z => (0 <? z)%Z && (Z.of_N (snd ff) <=? z)%Z | None => false end) then Fail Value else
+  (* :96 window = slice(max(start_frame or 0, 0), None if end_frame is None else max(end_frame, 0)) *)
+  let lo := Z.max (match s with Some z => z | None => 0%Z end) 0 in
+  let hi := match e with Some z => Some (Z.max z 0) | None => None end in
   dop D <- plift (num_dims h);                         (* max(len(c.format)) - 1: ValueError without components *)
   let T := total_points h in
-  dop frames <- prep (N.to_nat (snd ff)) (rd_frame00 (h_comps h) T D);
-  (* no frames: np.zeros((0, 1, _points, _dims)), np.zeros((0, 1, _points)) (ValueError for _dims < 0) - the same
-     empty arrays the general case below produces.
+  dop frames <- prep (N.to_nat (snd ff)) (rd_frame00 (h_comps h) T D);   (* every frame is decoded *)
+  let kept := slice_list lo hi frames in               (* :133 frames_d[window], frames_c[window] *)
+  (* no frames (in the file or in the window): np.zeros((0, 1, _points, _dims)), np.zeros((0, 1, _points)) (ValueError
+     for _dims < 0) - the same empty arrays the general case below produces.
      NumPyPoseBody.__init__: the masked array is an ndarray, so mask = confidence == 0 is stacked
      data.shape[-1] times (raises for 0) and combined (or) with the array's own mask *)
   if (D <=? 0)%Z then Fail Value else
-  let conf := flat_map (fun f => snd (fst f)) frames in
-  Ret {| b_fps := f32_of_u16 (fst ff);
-         b_shape := [snd ff; 1; T; Z.to_N D];
-         b_data := flat_map (fun f => fst (fst f)) frames;
+  let conf := flat_map (fun f => snd (fst f)) kept in
+  Ret {| b_fps := fps;
+         b_shape := [lenN kept; 1; T; Z.to_N D];
+         b_data := flat_map (fun f => fst (fst f)) kept;
          b_conf := conf;
-         b_mask := map (fun mc => orb (fst mc) (is_zero32 (snd mc))) (combine (flat_map (fun f => snd f) frames) conf) |}.
+         b_mask := map (fun mc => orb (fst mc) (is_zero32 (snd mc))) (combine (flat_map (fun f => snd f) kept) conf) |}
+  end end.
 
-(* the hook of PoseRead.read_body_with: both legacy decoders ignore start_time / end_time, v0.0 ignores
-   every window argument (unused_kwargs) *)
+(* the hook of PoseRead.read_body_with: Pose.read passes its four window arguments on as keyword arguments *)
 Definition c04_legacy (v : vclass) (h : header) (a : rargs) : prog body :=
   match v with
-  | V00 => read_v0_0 h
-  | V01 => read_v0_1 h (a_sf a) (a_ef a)
+  | V00 => read_v0_0 h (a_sf a) (a_st a) (a_ef a) (a_et a)
+  | V01 => read_v0_1 h (a_sf a) (a_st a) (a_ef a) (a_et a)
   | _ => Fail NotImplemented
   end.
 
